@@ -436,8 +436,8 @@ def tdm_cases(env, rep, rng, ncases):
 
 
 def plan(tier, seed, scale=1.0):
-    n = int((60 if tier == "quick" else 1200) * scale)
-    return [{"n": n, "timeout": 3000} for _ in range(16)]
+    n = int((300 if tier == "quick" else 12000) * scale)
+    return [{"n": n, "timeout": 6000} for _ in range(16)]
 
 
 def run_shard(shard, rep):
